@@ -212,7 +212,7 @@ def run(rep, tier):
         from . import c19 as _c19
         _c19.clause_event_kind(facts, rep)    # each scalar event stores its value in its own kind (shared with C19)
         from . import c04
-        c04.clause_c(facts, rep)   # the exact fast path multiplies / divides only exact operands (a double rounding is a wrong value)
+        c04.clause_c(get_facts(cfg, norm=True), rep, raw=facts)   # the exact fast path multiplies / divides only exact operands (a double rounding is a wrong value)
         c04.clause_d(facts, rep)   # numbers keep the value the text denotes only if dropped digits are remembered
         c04.clause_f(facts, rep)   # ... and an integer that fits uint64 is stored as an integer
         # 'string values equal to the decoded bytes': escape tables, surrogate handling and the UTF-8 encoder (shared with C05)
